@@ -30,6 +30,7 @@ def stepLine (d : DS) (line : String) : DS × String :=
       let (s', r) := step d.cfg d.s (.write ev size el)
       ({ d with s := s' }, (if r == .ok then "ok " else "err ") ++ listing s')
     | _, _, _ => (d, "bad-op")
+  | ["nofmt"] => let (s', r) := step d.cfg d.s .noFormat; ({ d with s := s' }, (if r == .errFormat then "errfmt " else "ok ") ++ listing s')
   | ["reopen"] => let (s', _) := step d.cfg d.s .reopen; ({ d with s := s' }, "ok " ++ listing s')
   | ["extrename", k] =>
     match k.toNat? with
